@@ -175,6 +175,60 @@ int main() {}
 '''
 
 
+CPP11_WITNESS = r'''
+#include <trompeloeil.hpp>
+#include <type_traits>
+namespace w11 {
+template <class A, class B> constexpr bool same() { static_assert(std::is_same<A, B>::value, "C09: _N must be a reference to the caller's N:th argument (C++11 API)"); return true; }
+struct P1 { int v; }; struct P2 { int v; }; struct P3 { int v; };
+struct MO { MO() = default; MO(MO&&) = default; MO(MO const&) = delete; int v; };
+struct M {
+  MAKE_MOCK4(f, int(P1, P2&, P3 const&, MO&&));
+  MAKE_CONST_MOCK2(g, void(P1*, P2&&));
+  MAKE_MOCK15(h, int(P1&, int, int, int, int, int, int, int, int, int, int, int, P2 const&, int, P3&));
+};
+void use(M& m) {
+  using trompeloeil::_;
+  REQUIRE_CALL_V(m, f(_, _, _, _),
+    .WITH(same<decltype(_1), P1&>() && same<decltype(_2), P2&>() && same<decltype(_3), P3 const&>() && same<decltype(_4), MO&>())
+    .SIDE_EFFECT((void)(same<decltype(_1), P1&>() && same<decltype(_2), P2&>() && same<decltype(_4), MO&>()))
+    .RETURN(same<decltype(_3), P3 const&>() ? 1 : 0));
+  REQUIRE_CALL_V(m, f(_, _, _, _),
+    .LR_WITH(same<decltype(_2), P2&>())
+    .LR_SIDE_EFFECT((void)same<decltype(_4), MO&>())
+    .LR_RETURN(same<decltype(_1), P1&>() ? 1 : 0));
+  REQUIRE_CALL_V(m, f(_, _, _, _),
+    .THROW(same<decltype(_2), P2&>() ? 1 : 0));
+  REQUIRE_CALL_V(m, g(_, _),
+    .WITH(same<decltype(_1), P1*&>() && same<decltype(_2), P2&>() && same<decltype(_3), trompeloeil::illegal_argument&&>()));
+  REQUIRE_CALL_V(m, h(_, _, _, _, _, _, _, _, _, _, _, _, _, _, _),
+    .WITH(same<decltype(_1), P1&>() && same<decltype(_13), P2 const&>() && same<decltype(_14), int&>() && same<decltype(_15), P3&>())
+    .RETURN(0));
+}
+}
+int main() {}
+'''
+
+
+def c09a11(ctx):
+    """the same positional-alias witness for the C++11 API (the `_V` macros; `_N` is produced there by an explicitly
+    typed helper instead of decltype(auto)): decltype(_k) is an lvalue reference to the caller's k:th argument in every
+    clause kind, up to position 15, and illegal_argument beyond the arity"""
+    gen = facts.gen_dir()
+    os.makedirs(gen, exist_ok=True)
+    path = os.path.join(gen, "c09_cpp11.cpp")
+    with open(path, "w") as fh:
+        fh.write(CPP11_WITNESS)
+    cfgs = [("clang++", "c++11")] if ctx.tier == "quick" else [("clang++", "c++11"), ("g++", "c++11")]
+    res = cc.run_many([(cc.syntax_cmd(c, s, path), None) for c, s in cfgs])
+    for (c, s), (rc, out) in zip(cfgs, res):
+        ok = rc == 0
+        m = re.search(r"error: .*", out)
+        ctx.ob("C09.a.cpp11", "_1.._15 in the C++11 macro API", ok, pattern="verif:rules/C09.py", unit="%s@%s" % (c, s),
+               detail="" if ok else "positional-alias witness for the C++11 API fails with %s -std=%s: %s"
+               % (c, s, (m.group(0)[:300] if m else out[-300:])), witness=None if ok else {"output_tail": out[-1500:]})
+
+
 def c09e(ctx):
     """rvalue and move-only arguments reach the clauses, and are handed on by RETURN, without being copied: a type
     whose copy operations do not compile when used goes through every path (parameter tuple, _N, WITH / SIDE_EFFECT,
@@ -219,6 +273,7 @@ def run(ctx):
     ctx.assumptions = ["clang 14 / g++ 12 front ends"]
     ctx.not_decided = []
     c09a(ctx)
+    c09a11(ctx)
     c09e(ctx)
     seen = set()
     units = []
